@@ -263,6 +263,40 @@ def t3_sigflags(w: World, rep: Report, rule: str, lock: str, witnesses=()):
             elif deleg is None:
                 bad.append('no sign / get_message found that could take the sigflags argument')
         rep.check(rule, f'tools.{wn}|sigflags-plumbed', not bad, line=wfi.node.lineno, file=REL, why=bad[0] if bad else '')
+        # a signature made outside the VM (over a message built with the sigflags) must carry the flag byte itself:
+        # OP_SIGN appends it, a hand-made signature pushed by the template has to be followed by `{sigflags}`
+        try:
+            wvars = cx.variants(wn)
+        except AnalysisError:
+            wvars = []
+        for wv in wvars:
+            missing = []
+            try:
+                toks = [t for t in _all_toks(cx.tree(wv))]
+            except AnalysisError:
+                continue
+            for t in toks:
+                hs = list(getattr(t, 'holes', {}).values())
+                made = [h for h in hs if any(isinstance(x, ast.Call) and (
+                    (isinstance(x.func, ast.Name) and x.func.id == 'sign_with_scalar') or
+                    (isinstance(x.func, ast.Attribute) and x.func.attr == 'sign')) for x in ast.walk(h.resolved))]
+                if made and not any(isinstance(h.expr, ast.Name) and h.expr.id == 'sigflags' for h in hs):
+                    missing.append(t.plain)
+            if missing:
+                rep.check(rule, f'{_vtag(wv)}|hand-made-signature-carries-flag-byte', False, line=wv.line, file=REL,
+                          why=f'the witness pushes a signature made outside the VM as `{missing[0]}` without the sigflags '
+                          f'byte: the message was built with the flags, OP_CHECK_SIG will assume flags 0 and rebuild another '
+                          f'message - the builder\'s own witness is rejected whenever sigflags is not 00')
+            elif any(any(isinstance(x, ast.Call) and isinstance(x.func, ast.Name) and x.func.id == 'sign_with_scalar'
+                         for h in getattr(t, 'holes', {}).values() for x in ast.walk(h.resolved)) for t in toks):
+                rep.check(rule, f'{_vtag(wv)}|hand-made-signature-carries-flag-byte', True, line=wv.line, file=REL)
+
+
+def _all_toks(tree):
+    """Every operand token of a parsed template (nested blocks included)."""
+    for node in _walk_nodes(tree):
+        for t in getattr(node, 'operands', []) or []:
+            yield t
 
 
 def _delegates_sigflags(w, fi):
@@ -439,6 +473,10 @@ def run_c13(w: World, rep: Report):
            'message builder and maps the verification result correctly (C02.R2/R3/R5)', floor=10)
     depend(rep, w, 'rules_c03', ('C03.R1', 'C03.R2'), 'C13.TD3',
            'the multisig instruction the multisig lock relies on consumes matched keys and requires all m (C03.R1/R2)', floor=4)
+    depend(rep, w, 'rules_c19', ('C19.R2',), 'C13.TD19',
+           'the verdict for a witness does not depend on what the process verified before: no instruction writes '
+           'process-global state (C19.R2 re-evaluated)', floor=10)
+    sigfields_plumbed(w, rep, 'C13.T10')
     rep.explanation = (
         'Necessary structural conditions for "exactly the intended holder can unlock", decided on the templates '
         'embedded in tools.py by a stack-effect and integrity type system (completeness side: the lock is '
@@ -510,6 +548,10 @@ def run_c14(w: World, rep: Report):
     depend(rep, w, 'rules_c09', ('C09.R2', 'C09.R3'), 'C14.TD9',
            'the clock thresholds (flags) configured for a run hold inside DEF/CALL, IF, TRY and LOOP bodies too - the time '
            'checks of these locks run inside such bodies (C09.R2/R3 re-evaluated)', floor=16)
+    depend(rep, w, 'rules_c19', ('C19.R2',), 'C14.TD19',
+           'the verdict for a witness does not depend on what the process verified before: no instruction writes '
+           'process-global state (C19.R2 re-evaluated)', floor=10)
+    sigfields_plumbed(w, rep, 'C14.T10')
     rep.explanation = (
         'Necessary structural conditions of the delegation locks, decided by typing their templates: every '
         'certificate slice that decides something (delegate key, begin, end, may-delegate) descends from the '
@@ -602,6 +644,10 @@ def run_c15(w: World, rep: Report):
     depend(rep, w, 'rules_c09', ('C09.R2', 'C09.R3'), 'C15.TD9',
            'the clock thresholds (flags) configured for a run hold inside DEF/CALL, IF, TRY and LOOP bodies too - the time '
            'checks of these locks run inside such bodies (C09.R2/R3 re-evaluated)', floor=16)
+    depend(rep, w, 'rules_c19', ('C19.R2',), 'C15.TD19',
+           'the verdict for a witness does not depend on what the process verified before: no instruction writes '
+           'process-global state (C19.R2 re-evaluated)', floor=10)
+    sigfields_plumbed(w, rep, 'C15.T10')
     rep.explanation = (
         'Necessary structural conditions of the hash/point time-locked contracts, decided on their templates: '
         'stack compatibility with the builder-made witnesses, trusted or commitment-authenticated keys, the '
@@ -866,3 +912,50 @@ def ctor_field_agreement(w, rep, rule: str):
                       line=c.lineno, file=REL, why=why)
     if n == 0:
         rep.check(rule, 'tools|positional-dataclass-constructions', True, trivial=True)
+
+
+def sigfields_plumbed(w: World, rep: Report, rule: str):
+    """Every builder that signs on behalf of the caller runs its signing script on the caller's sigfields as
+    given: the cache handed to `run_script` is the `sigfields` parameter itself or a full copy / union of it,
+    never a filtered or rebuilt subset (a dropped field is left out of the signed message and the witness
+    no longer matches what the lock reconstructs)."""
+    import ast as _ast
+    rep.rule(rule, 'builders hand the caller\'s sigfields to their signing run whole (the parameter, a copy, or a union '
+             'with it) and never rebind the parameter to a subset', floor=4)
+    n = 0
+    for fi in w.repo.all_funcs(['tools']):
+        if fi.parent is not None or fi.cls is not None or 'sigfields' not in fi.params:
+            continue
+        cfg = w.cfg(fi)
+        kinds = w.kinds(fi)
+        calls = cfg.nodes_with_call(lambda c: isinstance(c.func, _ast.Name) and c.func.id == 'run_script')
+        for nd, c in calls:
+            arg = None
+            if len(c.args) >= 2:
+                arg = c.args[1]
+            for k in c.keywords:
+                if k.arg == 'cache_vals':
+                    arg = k.value
+            if arg is None:
+                continue
+            n += 1
+            k = kinds.of(arg, nd)
+            ok, why = True, ''
+            for l in k.leaves():
+                srcs = []
+                if l.tag == 'param' and l.name == 'sigfields':
+                    continue
+                if l.tag == 'copy':
+                    srcs = [l.src]
+                elif l.tag == 'dict':
+                    srcs = list(l.spreads)
+                if srcs and any(x.tag == 'param' and x.name == 'sigfields' for s2 in srcs for x in s2.leaves()):
+                    continue
+                ok = False
+                why = (f'the signing run of {fi.name} gets `{_ast.unparse(arg)[:50]}` ({l.tag}) as its cache, not the '
+                       f'caller\'s sigfields as given: a field left out is not signed, the witness fails against the lock '
+                       f'that rebuilds the message from all sigfields')
+            rep.check(rule, f'tools.{fi.name}|run_script@{len([1 for m, _ in calls if m.id <= nd.id])}|cache-is-sigfields',
+                      ok, line=nd.line, file=REL, why=why)
+    if n == 0:
+        raise AnalysisError('no builder runs a signing script on a sigfields parameter')
